@@ -237,11 +237,8 @@ def _df_fillna(df, method = None, axis = 0, limit = None):
             if len(res.shape)==2:
                 nonan = nonan.max(axis=1)
             if m == 'fnna':
-                nonan = nonan[nonan.values]
-                if len(nonan):
-                    res = res[nonan.index[0]:]
-                else:
-                    res = res.iloc[:0]
+                valid = np.asarray(nonan.values, dtype = bool)
+                res = res.iloc[int(np.argmax(valid)):] if valid.any() else res.iloc[:0] ## by position: res[label:] is a positional slice when the labels are ints
             elif m == 'nona':
                 res = res.loc[nonan.values] ## .loc: an empty boolean mask must select (no) rows, not (no) columns
         else:
